@@ -118,6 +118,10 @@ def to_sympy(t):
         b, e = to_sympy(t[1]), to_sympy(t[2])
         if not isinstance(b, sympy.Basic) and not isinstance(e, sympy.Basic):
             b = sympy.sympify(b)
+        if (isinstance(b, sympy.Number) or not isinstance(b, sympy.Basic)) and float(b) == 1.0 and isinstance(e, sympy.Basic) and e.free_symbols:
+            # sympy keeps 1.0**a unevaluated, calls it constant, yet cannot convert it to float: not an expression any
+            # gate constructor accepts (canonicalize_half_turns raises) -- outside the domain
+            raise OutOfDomain("1**symbol")
         return b ** e
     if k in ("sin", "cos", "exp"):
         return getattr(sympy, k)(to_sympy(t[1]))
